@@ -58,6 +58,22 @@ def conv(typ, s):
 
 def apply(root, op):
     kind = op[0]
+    # the by-option variants of the API behave like their by-name twins
+    if kind == 'optset':
+        return apply(root, ['set', op[1], op[2], op[3], op[4]])
+    if kind == 'optsetmulti':
+        return apply(root, ['setmulti', op[1], op[2]])
+    if kind == 'optrmnsec':
+        return apply(root, ['rmnsec', op[1], op[2]])
+    if kind == 'optrmtsec':
+        return apply(root, ['rmtsec', op[1], op[2]])
+    if kind == 'optsetcomment':
+        sec, o, _ = resolve(root, op[1])
+        if o is None:
+            return -1
+        o.comment = op[2]
+        o.mod = True
+        return 0
     if kind == 'set':
         _, typ, name, value, idx = op
         sec, o, _ = resolve(root, name)
@@ -189,6 +205,18 @@ def apply(root, op):
 def render(op, optloc=None):
     """script line for an op against context 0"""
     kind = op[0]
+    if kind == 'optset':
+        _, typ, name, value, idx = op
+        v = fhex(value) if typ == 'float' else hx(value) if typ == 'str' else str(int(value))
+        return 'opt_set%s %s %s %d' % (typ, optloc(name), v, idx)
+    if kind == 'optsetmulti':
+        return 'opt_setmulti 0 %s %d %s' % (optloc(op[1]), len(op[2]), ' '.join(hx(x) for x in op[2]))
+    if kind == 'optrmnsec':
+        return 'opt_rmnsec %s %d' % (optloc(op[1]), op[2])
+    if kind == 'optrmtsec':
+        return 'opt_rmtsec %s %s' % (optloc(op[1]), hx(op[2]))
+    if kind == 'optsetcomment':
+        return 'opt_setcomment %s %s' % (optloc(op[1]), hx(op[2]))
     if kind == 'set':
         _, typ, name, value, idx = op
         if typ == 'float':
